@@ -85,6 +85,12 @@ pub fn setup(prop: &str, tier: &str, variant: u64) -> Setup {
             p.w_gc = 2;
             p.subdocs = false;
         }
+        "C16" => {
+            m.prop = "C16";
+            m.c16 = true;
+            p.w_gc = 4;
+            p.calls = [10, 4, 3, 6, 12, 2, 1, 5, 4, 2, 10, 8, 1, 5, 2, 1, 3, 4, 2, 2, 0, 0];
+        }
         "C13" => {
             m.prop = "C13";
             m.c13 = true;
